@@ -9,6 +9,9 @@ func old[T any](x T) T { return x }
 
 func implies(a, b bool) bool { return !a || b }
 
+// now(x), used inside old(...): x is evaluated in the post-state.
+func now[T any](x T) T { return x }
+
 func ite[T any](c bool, a, b T) T {
 	if c {
 		return a
@@ -59,11 +62,27 @@ func aliases(s []byte, t []byte, lo, hi int) bool {
 // bufValid(b): b is a well-formed gopacket serialize buffer (0 <= start <= len(data) <= cap(data), ...).
 func bufValid(b any) bool { return b != nil }
 
-// bufSmall(b): bufValid and, additionally, capacity and growth increments below 2^30 bytes.
+// bufSmall(b): bufValid and, additionally, capacity and growth increments below 2^26 bytes
+// (the precondition of every serialiser: an assumption about memory size, not about the code).
 func bufSmall(b any) bool { return b != nil }
+
+// bufRoom(b, front, back): the buffer can take front more bytes in front and back more behind without reallocating.
+func bufRoom(b any, front, back int) bool { return b != nil }
+
+// bufMedium(b): the same with the bound 2^31 (what remains after a few doublings).
+func bufMedium(b any) bool { return b != nil }
 
 // bufBytes(b): the bytes currently in the buffer, b.Bytes().
 func bufBytes(b interface{ Bytes() []byte }) []byte { return b.Bytes() }
+
+// window(s, t, lo, hi): s is exactly t[lo:hi] (same backing array and start, also when empty).
+func window(s []byte, t []byte, lo, hi int) bool { return aliases(s, t, lo, hi) }
+
+// isnew(x): the backing array of x was allocated by the function under contract.
+func isnew(x []byte) bool { return true }
+
+// samebase(x, y): x and y share their backing array and x starts where y starts.
+func samebase(x, y []byte) bool { return cap(x) == 0 || cap(y) == 0 || &x[:1][0] == &y[:1][0] }
 
 // dyntype(x, "T") : the dynamic type of interface x is T
 func dyntype(x any, name string) bool { return true }
